@@ -113,7 +113,8 @@ def cases(draw, tier):
         classes.append({'ns': ns, 'name': cname, 'methods': methods, 'fault': fault,
                         'members': list(members)})
     index_fault = draw(st.sampled_from(['none'] * 6 + ['missing', 'truncated']))
-    return {'classes': classes, 'index_fault': index_fault}
+    return {'classes': classes, 'index_fault': index_fault,
+            'compile': draw(st.integers(0, 3)) == 0}
 
 
 def interface_text(case):
@@ -296,6 +297,30 @@ def decode_cpp_literal(lit: str) -> bytes:
 
 # ------------------------------------------------------------------ the check
 
+def compiler_bytes(literals, d):
+    """What g++ -std=c++17 makes of the string literals (with their quotes): list of bytes, or
+    an error text.  The generated code is C++: this is the decoder the property speaks of."""
+    import subprocess
+    src = ['#include <cstdio>']
+    for i, lit in enumerate(literals):
+        src.append('static const char a%d[] = %s;' % (i, lit))
+    src.append('int main() {')
+    for i in range(len(literals)):
+        src.append('  for (unsigned k = 0; k + 1 < sizeof(a%d); ++k) std::printf("%%02x", '
+                   '(unsigned char)a%d[k]); std::printf("\\n");' % (i, i))
+    src.append('  return 0; }')
+    cpp = os.path.join(d, 'lits.cpp')
+    with open(cpp, 'w', encoding='utf-8', errors='surrogateescape') as f:
+        f.write('\n'.join(src) + '\n')
+    exe = os.path.join(d, 'lits')
+    r = subprocess.run(['g++', '-std=c++17', '-O0', '-w', cpp, '-o', exe], capture_output=True,
+                       text=True, timeout=600)
+    if r.returncode != 0:
+        return next((l for l in r.stderr.splitlines() if 'error' in l), r.stderr[:200])[:200]
+    r = subprocess.run([exe], capture_output=True, text=True, timeout=60)
+    return [bytes.fromhex(l) for l in r.stdout.split('\n')[:len(literals)]]
+
+
 def check(case):
     out = []
     d = wraps.scratch_dir('c17')
@@ -339,6 +364,17 @@ def check(case):
                 len(bindings), len(want)))]
         stripped = doc
         wrapped = [m for c in case['classes'] for m in ordered(c)]
+        # every 4th case: the compiler's reading of the literals (1 g++ run per case)
+        by_compiler = {}
+        if case.get('compile'):
+            lits = [c.doc.strip() for c in bindings if c.doc is not None and
+                    c.doc.strip().startswith('"') and c.doc.strip().endswith('"')]
+            if lits:
+                got = compiler_bytes(lits, d)
+                if isinstance(got, str):
+                    out.append(Failure('C17.escaping', 'g++ rejects a docstring literal: ' + got))
+                else:
+                    by_compiler = dict(zip(lits, got))
         for call, md, ext, wm in zip(bindings, want, texts, wrapped):
             if call.doc is None:
                 out.append(Failure('C17.selection', 'binding %s has no docstring literal' %
@@ -355,6 +391,9 @@ def check(case):
                 out.append(Failure('C17.escaping', 'literal of %s is ill-formed: %s; %r' % (
                     call.pyname, e, lit[:80])))
                 continue
+            if lit in by_compiler and by_compiler[lit] != decoded:
+                raise RuntimeError('harness: literal decoder disagrees with g++ on %r: %r vs %r'
+                                   % (lit[:80], decoded[:60], by_compiler[lit][:60]))
             try:
                 dtext = decoded.decode('utf-8')
             except UnicodeDecodeError:
@@ -413,6 +452,8 @@ def check(case):
 
 def features(case):
     f = set()
+    if case.get('compile'):
+        f.add('literals-decoded-by-g++')
     for c in case['classes']:
         if c['fault'] != 'none':
             f.add('fault-' + c['fault'])
@@ -454,7 +495,10 @@ SPEC = Spec(
          "all XML-1.0 Unicode biased to quotes, backslash, newline/CR/tab, C1 controls, NBSP, "
          "soft hyphen, astral characters, '??/', '%', '{}', hex digits after a control "
          "character, trailing backslash. Oracle: selection via unique markers, escaping via an "
-         "independent C++ literal decoder (greedy \\x) against the extracted text, isolation "
+         "independent C++ literal decoder (greedy \\x) against the extracted text (for every 4th "
+         "case the literals are also compiled with g++ -std=c++17 and the bytes of the "
+         "resulting arrays must equal the decoder's), content (the line documenting every "
+         "parameter the binding has), isolation "
          "(output minus literals == output without XML). Non-trivial: a text with non-ASCII / "
          "control / quote / backslash / newline characters, or overloads with identical "
          "parameter names.",
